@@ -131,7 +131,9 @@ def run(run: common.Run):
 
         for tag, res, (ga, oc, cc) in (('source x a', sx, (1 / a, 1.0, 1.0)), ('reference x c', rx, (c, c, c))):
             ecorr, epar = expect(res, ga, oc, cc)
-            if not np.array_equal(res.corr_mask, b.corr_mask) or not np.array_equal(res.param_masks, b.param_masks):
+            # (the R2 of a one-pixel kernel is 1 - x/0: nan or +-inf by float noise, neither a value nor a validity to compare)
+            pm = slice(None) if case['kernel'][0] * case['kernel'][1] > 1 else slice(0, 2 * nbp)
+            if not np.array_equal(res.corr_mask, b.corr_mask) or not np.array_equal(res.param_masks[pm], b.param_masks[pm]):
                 run.fail(case, f'{tag}: validity masks changed', signature=dict(kind='mask-changed'))
                 continue
             if case['pow2']:
@@ -145,7 +147,10 @@ def run(run: common.Run):
                              signature=dict(kind='scale-law-exact', which=tag))
             else:
                 m = b.corr_mask
-                rel = np.nanmax(np.abs(res.corr[:, m] - ecorr[:, m]) / np.maximum(np.abs(ecorr[:, m]), 1e-6)) if m.any() else 0
+                # relative to the value, but not below 1 % of the image's typical magnitude: a corrected value near zero is the
+                # float32 difference of gain * source and an offset a thousand times larger, its error is theirs
+                floor = max(1e-6, 1e-2 * float(np.nanmedian(np.abs(ecorr[:, m])))) if m.any() else 1e-6
+                rel = np.nanmax(np.abs(res.corr[:, m] - ecorr[:, m]) / np.maximum(np.abs(ecorr[:, m]), floor)) if m.any() else 0
                 r2b, r2r = b.param[2 * nbp:], res.param[2 * nbp:]
                 # R2 is a float32 cancellation-prone expansion (and can be -500 for a poor gain-only fit): loose for general
                 # factors, relative to max(1, |R2|)
